@@ -77,7 +77,7 @@ def _ver_unit(args):
             fails.append(("C01|verify|%s|expected=%s|got=%s" % (cls, want, got),
                           "verify(Q=%s, z=%d, (r=%d, s=%d)) on curve %s (%s): spec %s, pycoin %s" % (list(Qq), zz, r, s, ck, variant, want, got),
                           {"curve": ck, "Q": list(Qq), "z": zz, "r": r, "s": s, "expected": want, "got": got}))
-    grid = list(range(-1, n + 2)) + [2 * n - 1, 2 * n] + ([] if quick else list(range(n + 2, 2 * n - 1)))
+    grid = list(range(-1, n + 2)) + [2 * n - 1, 2 * n] + ([] if quick or n > 31 else list(range(n + 2, 2 * n - 1)))
     for r in grid:
         for s in grid:
             check(Qs[0], z, r, s, (r, s) in accset, "grid")
@@ -313,7 +313,7 @@ def run(ctx):
     # ---- 1+4a. RFC 6979 terms: ground truth first, then toy and production cases (one TLC run)
     recs_toy, recs_prod = [], []
     if _only(ctx, "rfc") or _only(ctx, "vectors"):
-        nrnd = 1 if q else 6
+        nrnd = 1 if q else 4
         given = {"vec": [drv.vector_case(v) for v in vecs], "toy": toy_n,
                  "prod": [{"q": list(params[c][4].to_bytes(32, "big")), "rnd": [list(rnd.randbytes(32)) for _ in range(nrnd)]}
                           for c in ("secp256k1", "secp256r1")]}
@@ -363,7 +363,7 @@ def run(ctx):
     # ---- 2. model
     if _only(ctx, "model"):
         cfgs = ["p11", "p23_q", "p43_q", "p83_q"] if q else ["p11", "p23", "p43", "p67", "p79", "p83", "p103"]
-        tlc_many(ctx, [dict(module="MC_ECDSA", cfg="MC_ECDSA_" + c, workers=4, timeout=3000) for c in cfgs], threads=4)
+        tlc_many(ctx, [dict(module="MC_ECDSA", cfg="MC_ECDSA_" + c, workers=4 if q else 3, timeout=3000) for c in cfgs], threads=4 if q else 7)
 
     # ---- 3. tables
     need_tab = any(_only(ctx, s) for s in ("tables", "rfc", "selftest"))
@@ -424,7 +424,8 @@ def run(ctx):
         r0[0]["s"] = (r0[0]["s"] % (CURVES[ck][4] - 1)) + 1
         ok2 = bool(_sign_unit((ck, d0, r0))[2])
         ctx.selftest("replay_rejects_corrupted_expectation", ok1 and ok2)
-    ctx.exhaustive = True
+    ctx.exhaustive = False
+    ctx.extra["exhaustive_within"] = "the (d, z, k) / (Q, z, r, s) / (z, r, s) grids of the toy curves named in tlc_runs (see spec/MC_ECDSAReplay_*.cfg); boundary classes and seeded samples on secp256k1/secp256r1 (L1)"
 
 
 def _dispatch(u):
@@ -654,7 +655,8 @@ def _record_toy_traces(ck, seed, count, nev):
                 got = drv.call(lambda: g.verify(Qv, int.from_bytes(zv, "big"), (r, s)))
                 evd = {"op": "verify", "Q": ecdrv.proj(Qv, p), "h1": list(zv), "r": r, "s": s, "res": got}
                 if isinstance(got, str):
-                    evd["res"] = None
+                    evd["res"] = False
+                    evd["op"] = "verify_raised"      # no action of Trace_ECDSA matches: the trace is rejected here
                     evd["exc"] = got
                     evd["sum_is_infinity"] = True
                     ev.append(evd)
@@ -750,8 +752,10 @@ def _traces(ctx, params, queue):
         for i in rej:
             m = _validate_traces.matched.get(i, 0)
             last = traces[i][min(m, len(traces[i]) - 1)]          # the first event TLC could not match
-            if last.get("exc") and last["op"] == "verify":
-                key = "C01|verify|sum_is_infinity|expected=False|got=%s" % last["exc"]
+            if last.get("exc") and last["op"] == "verify_raised":
+                z = int.from_bytes(bytes(last["h1"]), "big")
+                cls = "sum_is_infinity" if drv.ref_sum_is_infinity(ref, last["Q"], z, last["r"], last["s"]) else "in_range"
+                key = "C01|verify|%s|expected=False|got=%s" % (cls, last["exc"])
             elif last.get("exc") and last["op"] == "sign":
                 key = "C01|sign|retry|kused=wraps|got=%s" % last["exc"]
             elif last.get("exc"):
